@@ -1,1 +1,2 @@
+import Dawgs.Props.C14
 import Dawgs.Props.C16
